@@ -124,7 +124,8 @@ def run_big(ctx, tag, cases):
     plain = fw.build_harness(ctx, "plain", "run_io")
     if not plain: return {}
     path = write_cases(ctx, tag + "-big", big.text())
-    rc, out, err = fw.sh(["bash", "-c", 'ulimit -v 4194304; exec "$0" "$@"', plain, "--nomesh", path], timeout=1500)
+    # 1.5 GB of address space: what does not fit fails fast with bad_alloc; what fits may take a few seconds to zero-fill
+    rc, out, err = fw.sh(["bash", "-c", 'ulimit -v 1500000; exec "$0" "$@"', plain, "--nomesh", "--alarm", "20", path], timeout=2400)
     return parse_blocks(out)
 
 def compare_read(ctx, tag, cases, impl, model, oracles=()):
@@ -208,7 +209,7 @@ def finish_ctx(ctx, rule):
 
 def opt_matrix(rng, topo):
     """reader configuration for one case: mesh class compatible with the file's topology type most of the time"""
-    meshes = {"poly": ["poly", "poly", "poly", "tet", "hex"], "tet": ["tet", "poly", "tet"], "hex": ["hex", "poly", "hex"]}[topo]
+    meshes = {"poly": ["poly"] * 10 + ["tet", "hex"], "tet": ["tet", "poly", "tet", "poly", "tet", "hex"], "hex": ["hex", "poly", "hex", "poly", "hex", "tet"]}[topo]
     return {"mesh": rng.pick(meshes), "check": rng.below(2), "bu": rng.below(2)}
 
 def note_distinct(ctx, data):
@@ -348,7 +349,8 @@ def check_C18(ctx):
     ctx.cov["samples"] += [{"case": c["label"], "bytes": len(c["data"])} for c in list(cases.items.values())[25:29]]
     ctx.cov["samples"] += [{"theorem": t} for t in fw.theorem_statements("Props/Properties_C18.v", 4)]
     ctx.assumptions += ["the stream failure model: the stream reports its full length to seekg/tellg and then delivers only the first k bytes (harness/faultstream.hh)",
-                        "header entity counts above 2^22 are not run through the model (allocation): the harness only requires a non-Ok result for them"]
+                        "files whose header declares more than 2^22 entities are not run through the model (allocation): they run in the unsanitized build under ulimit -v; accepted outcomes are an error result, a std::exception (OtherError) or Ok with a mesh that passes the C++ mesh_valid oracle",
+                        "C18_prefix assumes that encode m is a byte string shorter than 2^62 (`small`): the driver evaluates this on every mesh observed from the real writer (small=1) and C06 reports a broken tie otherwise"]
 
 def write_faults(ctx, impl, model, descs, rng, quick):
     import iogen
@@ -454,7 +456,8 @@ def check_C07(ctx):
     ctx.cov["samples"] += [{"case": c["label"], "bytes": len(c["data"])} for c in list(cases.items.values())[30:34]]
     ctx.cov["samples"] += [{"theorem": t} for t in fw.theorem_statements("Props/Properties_C07.v", 4)]
     ctx.assumptions += ["memory safety of the C++ object graph itself is observed by the sanitizers on the generated inputs, not proved; the theorems prove the index/length discipline of the model",
-                        "files declaring more than 2^22 entities are only required to give a non-Ok result (allocation limits), the model is not run on them",
+                        "files declaring more than 2^22 entities are not run through the model (allocation): unsanitized build under ulimit -v; accepted outcomes: error result, std::exception (OtherError), or Ok with a mesh passing the C++ mesh_valid oracle",
+                        "C07_valid (stored handles in range) is proved for header counts below 2^30 and every configuration except hexahedral class + topology check (re-ordering path of the hexahedral kernel); the C++ mesh_valid oracle covers that configuration on the generated inputs",
                         "entity counts below 2^30 (every half-entity handle representable as int)"]
     optional_ascii(ctx, "C07")
 
